@@ -58,7 +58,7 @@ func init() {
 		Trusted:     []string{"go/types, go/cfg (x/tools v0.50.0)", "net/url", "html/template", "text/template/parse", "zitadel/schema encoder"},
 		Level:       "Sound static check of the structural necessary conditions: no double encoding, existing query kept, correct response-mode selection, html/template with quoted slots and slot/field agreement. Value-level round trips are stdlib behaviour and not decided.",
 		Note:        "Trusted: go/types+go/cfg, net/url, html/template. One known finding (URL-context slot vs custom schemes) is listed in known_findings.json.",
-		Technique:   "static analysis: encoding-level value-flow rule over typed terms, template parse + HTML attribute tokenizer, must-facts dataflow for mode selection",
+		Technique:   "static analysis: encoding-level value-flow rule over typed terms, template parse + HTML attribute tokenizer, must-facts dataflow for mode selection, struct-tag / template-slot agreement in both directions",
 		Rules:       []string{"E1", "E8.enc", "E8.fmt"},
 		Run: func(c *Ctx) {
 			RunE1(c, "C11", obs)
